@@ -532,6 +532,18 @@ example : (Pandora.Gen.Locks.pkgVars.filter fun v => Pandora.Spec.C11.inComponen
     Pandora.Spec.C11.componentVarOk ("components/providers/scenario/http.defaultTemplater", "templater.Templater", []) = false := by
   decide
 
+/-- **C11_setup_calls_reviewed** (round 6): the methods the lock-facts extractor takes as set-up only (`clientpool.Pool.Add`,
+`SourceStorage.AddSource`, `InitIterator`, `Validate`, `InitMiddleware`: their unguarded writes do not count against the
+object's class) are called, in the current source, only by the reviewed set-up functions — the warm-up constructors of the
+shared client pool, the decode functions of the scenario definition, the provider's `Run` before its first delivery. What
+was a trusted declaration of the extractor is a regenerated fact. -/
+theorem C11_setup_calls_reviewed : Pandora.Gen.Locks.setupCallers.all Pandora.Spec.C11.setupCallerOk = true := by decide
+
+/-- non-vacuity: the table has call sites; a client pool that is filled at `Bind` (every instance adds a client while the
+others call `Next`) is rejected -/
+example : Pandora.Gen.Locks.setupCallers.length ≥ 5 ∧
+    Pandora.Spec.C11.setupCallerOk ("core/clientpool.Pool.Add", "components/guns/http.BaseGun.Bind") = false := by decide
+
 /-! ### the provider's side: requests built from a decoded ammo that is delivered again -/
 
 /-- the regenerated reference flows of `(*Provider).Acquire` of the http provider — since round 4 also `Acquire` / `Release`
